@@ -125,7 +125,7 @@ _mk_add('add_callback')
 _mk_add('add_errback')
 
 
-@harness('C14', 'result', functions=[RF + 'result'])
+@harness('C14', 'result', functions=[RF + 'result'], native='contracts.native.c14:replay')
 def result(vc):
     """ensures the blocking call reports the delivered outcome: the result if there is one, otherwise raises the stored exception"""
     from cassandra.cluster import ResultSet
